@@ -370,6 +370,14 @@ TypeOfE(S, e, ctx) ==        \* ctx = class whose code we are in ("" outside cla
      [] e.k = "idx" -> LET at == TypeOfE(S, e.a, ctx) IN IF "arr" \in DOMAIN at THEN [p |-> at.arr] ELSE [p |-> "void"]
      [] e.k = "post" -> TypeOfE(S, [k |-> "var", n |-> e.n], ctx)
      [] e.k = "asg" -> TypeOfE(S, [k |-> "var", n |-> e.n], ctx)
+     [] e.k = "paren" -> TypeOfE(S, e.e, ctx)
+     [] e.k \in {"sfld", "sfasg"} -> LET fd == FieldDecl(S, e.c, e.f) IN IF "none" \in DOMAIN fd THEN [p |-> "void"] ELSE fd.t
+     [] e.k = "fasg" -> TypeOfE(S, [k |-> "fld", o |-> e.o, f |-> e.f], ctx)
+     [] e.k = "scall" -> LET rs == ResolveIn(S, e.c, e.m, [i \in 1..Len(e.a) |-> TypeOfE(S, e.a[i], ctx)])
+                         IN IF rs.idx = 0 THEN [p |-> "void"] ELSE Class(S, rs.cls).methods[rs.idx].ret
+     [] e.k = "supercall" -> LET b == IF ctx # "" /\ HasClass(S, ctx) THEN BaseOf(S, ctx) ELSE ""
+                                 rs == ResolveIn(S, b, e.m, [i \in 1..Len(e.a) |-> TypeOfE(S, e.a[i], ctx)])
+                             IN IF rs.idx = 0 THEN [p |-> "void"] ELSE Class(S, rs.cls).methods[rs.idx].ret
      [] OTHER -> [p |-> "void"]
 
 (* ================================================================== calls *)
